@@ -203,7 +203,9 @@ func runCase(b *rt.Built, s *m.Service, meth *m.Method, c *caseRec) string {
 	if vs := oracle.ResultViews(d, meth.Result); len(vs) > 0 {
 		expected = oracle.Project(d, meth.Result, sent, view)
 	} else {
-		expected = oracle.Project(d, meth.Result, sent, "default")
+		// a result that is not a result type has no views: result types nested in
+		// it are plain user types there and are rendered in full
+		expected = sent
 	}
 	resp := oracle.SelectResponse(d, meth, c.Result)
 	wantStatus := oracle.DefaultStatus(meth)
@@ -223,7 +225,9 @@ func runCase(b *rt.Built, s *m.Service, meth *m.Method, c *caseRec) string {
 		got = value.Nil()
 	}
 	if meth.Result != nil {
-		got = oracle.MaskOutsideView(d, meth.Result, got, view)
+		if len(oracle.ResultViews(d, meth.Result)) > 0 {
+			got = oracle.MaskOutsideView(d, meth.Result, got, view)
+		}
 		if msg := oracle.Match(d, meth.Result, expected, got, false, ""); msg != "" {
 			return fmt.Sprintf("result seen by the client differs: %s\n  returned by the service: %s\n  expected at the client:  %s\n  received:                %s", msg, c.Result.Canon(), expected.Canon(), got.Canon())
 		}
